@@ -8,7 +8,7 @@ from .common import Replayer, absorb, Machinery
 
 def run_config(chk, module, cfg, overrides, make_case, worker_module, worker_fn, sample_every=997,
                sample_fn=None, simulate=None, depth=None, expect_all_states=True, label=None, workers=16,
-               timeout=3600, flush_cases=None):
+               timeout=4 * 3600, flush_cases=None):
     rp = Replayer(worker_module, worker_fn)
     ov = dict(overrides or {})
     ov["GenPrint"] = "TRUE"
